@@ -92,6 +92,19 @@ CHECKS["C12"] = dict(
     note="Covers the struct layer API and LayerRef writers; trait-API handling and phase-output writers are outside this check's claim. "
          "Stricter than the statement (any hit fault must surface as Err). Metadata probes (exists/is_dir) are not fault positions. " + BASE_NOTE)
 
+CHECKS["C03"] = dict(
+    text="Bounded model checking from MIR of LayerEnv::{new, insert, write_to_layer_dir, read_from_layer_dir} and LayerEnvDelta::{insert, "
+         "write_to_env_dir, read_from_env_dir} over directories with symbolically named entries: the previous environment is an arbitrary "
+         "stale file in each env directory, the new environment is empty, one entry (4 scopes incl. a process x 5 behaviours), two entries "
+         "in one scope (all behaviour pairs) or in two scopes (all scope pairs); variable names are SMT strings over {letter, dot, letter, "
+         "0xFF} of length 1..2 (quick) / 1..4 (thorough), values arbitrary strings. Per path the solver decides: the files on disk are "
+         "exactly NAME.<suffix> with the raw value in the spec's directory per scope, nothing stale remains, the bystander file is untouched, "
+         "and reading back yields the written environment for every scope.",
+    design_ref="DESIGN.md §5 C03",
+    technique="symbolic execution of rustc MIR (mirsym) with SMT-string file names in a directory model + z3 strings; witness replay on a real temp dir",
+    note="Names without '/' and NUL; Path::file_stem/extension per std's documented rule. The read side for arbitrary spec-shaped "
+         "directories (suffix-less / unknown-suffix files) is not yet covered. " + BASE_NOTE)
+
 NOT_YET = "check not built yet in this round (see DESIGN.md §9 build order); no claim is made"
 NOT_APPLICABLE = {}
 ALL = [f"C{i:02d}" for i in range(1, 21)]
